@@ -26,7 +26,7 @@ ASSUMPTIONS = {"C12": ["'a StateMachine attribute' is read as hasattr(StateMachi
 PARAMS = ("tm", "state_tm", "initial_call")
 SUBSETS = [list(p) for r in range(4) for p in itertools.permutations(PARAMS, r)]
 FOREIGN = ["x", "t", "time", "state", "tm2", "initialcall", "Tm", "state_time", "args", "kwargs", "cls", "self2", "_tm"]
-POOL = ["n1", "n2", "n3", "n4", "n5", "n6"]
+POOL = ["n1", "n2", "n3", "n4", "n5", "n6", "_p1", "_p2"]     # a leading underscore is a legal state name
 
 
 def shards(pid, tier, seed):
